@@ -218,7 +218,7 @@ theorem C02_value (nodes : Nat → Node) (st : Store) (i : Nat) (v : Val)
     ∀ j, j ≠ i → (runNode nodes st i).1.out j = st.out j := by
   unfold runNode
   simp only [hc, Bool.false_and, Bool.false_eq_true, ↓reduceIte, hf, hargs, Bool.or_self, hfa, hev]
-  refine ⟨by simp, rfl, rfl, rfl, ?_⟩
+  refine ⟨by simp, trivial, trivial, trivial, ?_⟩
   intro j hj
   simp [updF, hj]
 
@@ -242,12 +242,12 @@ example : WF loopGraph.toGraph := FinGraph.check_sound _ (by decide)
 
 example :
     (compositeRun (nodeSem loopNodes) loopGraph.toGraph 100 (S.init Store.init (fun _ => []))).store.execLog
-      = [0, 3, 1, 2, 0, 3, 1, 2, 0, 3, 1, 2] := by decide
+      = [0, 3, 1, 2, 0, 3, 1, 2, 0, 3, 1, 2] := by decide +kernel
 
 example :
     (Spec.queueInterp (nodeSem loopNodes) loopGraph.toGraph 100
       (Spec.init loopGraph.toGraph Store.init (fun _ => []))).store.execLog
-      = [0, 3, 1, 2, 0, 3, 1, 2, 0, 3, 1, 2] := by decide
+      = [0, 3, 1, 2, 0, 3, 1, 2, 0, 3, 1, 2] := by decide +kernel
 
 /-- a diamond `0 >> 1`, `0 >> 2`, `3 << (1, 2)` in which `1` and `2` carry the same scoped label: the
 transcribed loop runs `3` twice (early, and again), the plain interpreter once — `WF.inj` is needed -/
@@ -262,10 +262,10 @@ def termNodes : Nat → Node := fun i =>
 
 theorem C02_flow_early_witness :
     (compositeRun (nodeSem termNodes) clashGraph.toGraph 100 (S.init Store.init (fun _ => []))).fired
-      = [0, 2, 3, 1, 3] ∧
+      = [0, 2, 1, 3, 3] ∧
     (Spec.queueInterp (nodeSem termNodes) clashGraph.toGraph 100
       (Spec.init clashGraph.toGraph Store.init (fun _ => []))).fired = [0, 2, 1, 3] ∧
-    clashGraph.check = false := by decide
+    clashGraph.check = false := by decide +kernel
 
 end PwVerif.C02
 
